@@ -109,7 +109,8 @@ def ensure_bridge(profile='dev', ignore_case=False):
             return out
         src = os.path.join(CACHE, 'bridge-src')
         os.makedirs(os.path.join(src, 'src'), exist_ok=True)
-        shutil.copy(os.path.join(VERIF, 'bridge', 'Cargo.toml'), os.path.join(src, 'Cargo.toml'))
+        toml = open(os.path.join(VERIF, 'bridge', 'Cargo.toml')).read().replace('path = "/repo"', 'path = "%s"' % REPO)
+        open(os.path.join(src, 'Cargo.toml'), 'w').write(toml)
         shutil.copy(os.path.join(VERIF, 'bridge', 'src', 'main.rs'), os.path.join(src, 'src', 'main.rs'))
         shutil.copy(os.path.join(REPO, 'Cargo.lock'), os.path.join(src, 'Cargo.lock'))
         tdir = os.path.join(CACHE, 'target' + ('-ic' if ignore_case else ''))
